@@ -289,6 +289,7 @@ var (
 	tPoorOne = Template{Name: "poorone", Consumer: "C2", Service: "a", Providers: []string{"P1", "P2"}, Cap: 5, Timeout: 1}
 	tModHalf = Template{Name: "modhalf", Consumer: "C2", Service: "a", Providers: []string{"P1", "P2"}, Cap: 5, Timeout: 1, Repeated: true, Freq: 1, Total: 2, Module: ModHalf, Threshold: 1}
 	tModDup  = Template{Name: "moddup", Consumer: "C2", Service: "a", Providers: []string{"P2"}, Cap: 5, Timeout: 1, Module: ModOther, Threshold: 1, SameTxAs: "mod1"}
+	tModDup2 = Template{Name: "moddup2", Consumer: "C1", Service: "a", Providers: []string{"P1", "P2"}, Cap: 5, Timeout: 2, Repeated: true, Freq: 2, Total: 2, Module: ModOther, Threshold: 2, SameTxAs: "mod2"}
 	tRep1    = Template{Name: "rep1", Consumer: "C1", Service: "a", Providers: []string{"P2"}, Cap: 5, Timeout: 1, Repeated: true, Freq: 1, Total: 1}
 	tF3      = Template{Name: "f3", Consumer: "C1", Service: "a", Providers: []string{"P2"}, Cap: 5, Timeout: 1, Repeated: true, Freq: 3, Total: -1}
 	tOneTot  = Template{Name: "onetot", Consumer: "C1", Service: "a", Providers: []string{"P2"}, Cap: 5, Timeout: 1, Repeated: false, Freq: 0, Total: 3}
